@@ -15,11 +15,16 @@ cp "$SRC/demo$K.py" "$D/demo.py"; cp "$SRC/demo$K.py" "$D/demo$K.py"
 rebuild() { cd "$D"; for b in jellyfysh/scheduler/heap_scheduler/heap_build.py jellyfysh/potential/merged_image_coulomb_potential/merged_image_coulomb_potential_build.py jellyfysh/potential/inverse_power_coulomb_bounding_potential/inverse_power_coulomb_bounding_potential_build.py; do /venv/bin/python $b >/dev/null 2>&1; done; }
 git -C "$SRC" checkout -- . 2>/dev/null
 cd "$SRC/jellyfysh" && PYTHONPATH="$SRC" timeout 2400 /venv/bin/python ../demo$K.py >/tmp/seedconf_$ID.clean.log 2>&1; RC_CLEAN=$?
-git -C "$D" apply "$OUT/patch.diff" || { echo "patch does not apply"; exit 2; }
+cp "$OUT/patch.diff" "$OUT/patch.orig.diff"
+if ! git -C "$D" apply "$OUT/patch.diff" 2>/dev/null; then
+  # /repo moved on since the author's worktree was made (a fix: commit): rebase the change with a 3-way merge
+  git -C "$D" apply --3way "$OUT/patch.orig.diff" >/dev/null 2>&1 || { echo "patch does not apply"; exit 2; }
+  git -C "$D" reset -q; git -C "$D" diff > "$OUT/patch.diff"
+fi
 TOUCHC=$(grep -cE '^\+\+\+ .*(\.[ch]|_build\.py)$' "$OUT/patch.diff")
 [ "$TOUCHC" != "0" ] && rebuild
 cd "$D" && TESTS=$(timeout 1500 /venv/bin/python -m pytest -q -p no:cacheprovider --timeout=900 -n 8 2>&1 | tail -1)
-git -C "$SRC" apply "$OUT/patch.diff"
+git -C "$SRC" apply "$OUT/patch.orig.diff"
 if [ "$TOUCHC" != "0" ]; then ( cd "$SRC"; for b in jellyfysh/scheduler/heap_scheduler/heap_build.py jellyfysh/potential/merged_image_coulomb_potential/merged_image_coulomb_potential_build.py jellyfysh/potential/inverse_power_coulomb_bounding_potential/inverse_power_coulomb_bounding_potential_build.py; do /venv/bin/python $b >/dev/null 2>&1; done ); fi
 cd "$SRC/jellyfysh" && PYTHONPATH="$SRC" timeout 2400 /venv/bin/python ../demo$K.py >/tmp/seedconf_$ID.mut.log 2>&1; RC_MUT=$?
 git -C "$SRC" checkout -- .
@@ -42,5 +47,5 @@ meta = {"id": ID, "property": P, "summary": am.get("summary"), "needs": am.get("
 json.dump(meta, open('/verif/seeded/%s/meta.json' % ID, 'w'), indent=1)
 print(ID, '| tests:', tests, '| demo clean/mut:', rc_clean, rc_mut, '|', checks[:300])
 PY
-rm -f "$OUT/author_meta.json"
+rm -f "$OUT/author_meta.json" "$OUT/patch.orig.diff"
 git -C /repo worktree remove --force "$D"
